@@ -1,7 +1,19 @@
 """C18  Assembly is a pure function of its inputs."""
 from ..common import require, concretize
 from ..obligations import Ob
-from ..symasm import assemble, reset_module_state
+import os
+
+from ..common import BUILD
+from ..symasm import assemble, reset_module_state, write_aux_file
+
+AUX = os.path.join(BUILD, "aux", "c18")
+INC_FILES = {"inc_bad.mac": "I1: .word 18\n.ascii \"\u044f\"\n.even\n", "inc_ok.mac": ".once\nI2: .word I2, 17\n",
+             "inc_chr.mac": ".word '\u044f\n.ascii \"\u044f\u0416\"\n"}
+
+
+def _aux():
+    for n, t in INC_FILES.items():
+        write_aux_file("c18", n, t)
 
 P = "pdpverif.props.c18:"
 
@@ -48,6 +60,8 @@ STEPS = [
     ("outputs", "make_bin \"o.bin\"\nmake_wav \"o.wav\", \"NAME\"\nmake_raw\n.word {V}\n"),
     ("fp-and-aliases", "ldf {V}(r1), ac1\nstf ac2, @#100\npush r0\ncall sub\nsub: ret\nsob r1, sub\n"),
     ("insert-file", "insert_file \"/verif/properties.jsonl\"\n.even\n.word {V}\n"),
+    ("include-bad", ".include \"%s/inc_bad.mac\"\n.word {V}\n" % AUX),
+    ("include-once-twice", ".include \"%s/inc_ok.mac\"\n.include \"%s/inc_ok.mac\"\n.word {V}, I2\n" % (AUX, AUX)),
     ("caret-nested", ".word ^/ ^|5| + 2 /\n.word {V}\n"),
     ("caret-top", ".word ^|6/2|, ^_7_\n.word {V}\n"),
     ("caret-bad-nesting", ".word ^/ ^|6 / 2| + 2 /\n.word {V}\n"),
@@ -55,7 +69,7 @@ STEPS = [
 PROBE = "P0: mov #{V}, P1\nP1: .word P0, und3f + 1\n.byte {V}\nbr P0\n"   # an error program: diagnostics with positions are compared too
 PROBE_OK = "P0: mov #{V}, P1\nP1: .word P0, P1 - P0\nlater = P1 + {V}\n.word later\nbr P0\n"
 HISTORY = [s for s in STEPS if s[0] in ("valid", "range-error", "parse-critical", "branch-error", "undefined", "recursive-link", "cycle-size",
-                                        "caret-nested", "caret-top")]
+                                        "caret-nested", "caret-top", "include-bad", "include-once-twice")]
 PROBE_CARET = ".word ^|6/2|, ^/ ^|{V}| + 2 /, ^_{V}_\n.word ^/ ^|6 / 2| + 2 /\n"  # the second line is invalid on purpose
 
 
@@ -106,19 +120,60 @@ def snapshot(o):
 
 
 def h_step(params, vals, ctx):
+    _aux()
     if params.get("vmax") is not None:
         require(-params["vmax"] <= vals["V"] <= params["vmax"])  # the message renders the value with str()
     reset_module_state()
     before = container_census()
     o = assemble([("/w/s.mac", params["text"])], vals, route=ctx.route, reset=False)
     ctx.observe_outcome(o)
+    ctx.observe_detail(snapshot(o))    # with positions: compared between fresh processes under different hash seeds
     ctx.reach(True)
     d, a, h = module_state()
     after = container_census()
     return d == 0 and a == 0 and h == 0 and before == after
 
 
+def h_emit(params, vals, ctx):
+    """Output directives are carried out in source order (so that two of them naming one path leave the last one's content),
+    in every process alike."""
+    import contextlib, io
+    import pdpy11.compiler as C
+    from pdpy11 import reports
+    from .c13 import Recorder
+    require(-65536 < vals["V"] < 65536)
+    reset_module_state()
+    o = assemble([("/w/s.mac", params["text"])], vals, route=ctx.route, reset=False)
+    ctx.observe_outcome(o)
+    ctx.reach(o.status == "ok")
+    if o.status != "ok":
+        return False
+    rec = Recorder()
+    real, real_formats = C.open_device, dict(C.file_formats)
+    C.open_device = rec.open_device
+    for f in ("bk_wav", "bk_turbo_wav"):
+        C.file_formats[f] = lambda base, code, name, _f=f: b"WAV:" + _f.encode() + b":" + bytes(name)
+    try:
+        with reports.handle_reports(lambda p, ident, *r: None):
+            with contextlib.redirect_stderr(io.StringIO()):
+                o.comp.emit_files(o.base, o.code)
+    finally:
+        C.open_device = real
+        C.file_formats.clear()
+        C.file_formats.update(real_formats)
+    got = [(path, chunks[0][:24]) for path, mode, chunks in rec.files]
+    ctx.observe_detail(got)
+    want = params["order"]   # [[path, first bytes of the content as text], ...] in directive order
+    if len(got) != len(want):
+        return False
+    for (path, head), (wpath, whead) in zip(got, want):
+        if path != wpath or not bytes(head).startswith(whead.encode()):
+            return False
+    return True
+
+
 def h_instance_id(params, vals, ctx):
+    _aux()
     from pdpy11 import deferred
     n = vals["N"]
     require(n >= 1)
@@ -151,6 +206,7 @@ def h_depth_matters(params, vals, ctx):
 
 
 def h_history(params, vals, ctx):
+    _aux()
     i, j = vals["I"], vals["J"]
     require(0 <= i < len(HISTORY) and 0 <= j < len(HISTORY))
     if params.get("subset"):
@@ -177,8 +233,26 @@ def h_history(params, vals, ctx):
     return snapshot(fresh) == snapshot(after)
 
 
+def h_charset_switch(params, vals, ctx):
+    """The output charset is an input of one assembly, not of the process: cs2 after cs1 gives what cs2 alone gives."""
+    _aux()
+    require(-65536 < vals["V"] < 65536)
+    cs1, cs2 = params["charsets"]
+    files = [("/w/p.mac", params["text"])]
+    reset_module_state()
+    fresh = assemble(files, vals, route=ctx.route, reset=False, charset=cs2)
+    reset_module_state()
+    assemble(files, vals, route=ctx.route, reset=False, charset=cs1)
+    after = assemble(files, vals, route=ctx.route, reset=False, charset=cs2)
+    ctx.observe_outcome(fresh)
+    ctx.observe_outcome(after)
+    ctx.reach(fresh.status == "ok")
+    return snapshot(fresh) == snapshot(after)
+
+
 def h_twice(params, vals, ctx):
     """One source text, parsed twice and assembled twice in one process."""
+    _aux()
     require(-65536 < vals["V"] < 65536)
     reset_module_state()
     o1 = assemble([("/w/p.mac", params["text"])], vals, route=ctx.route, reset=False)
@@ -188,19 +262,35 @@ def h_twice(params, vals, ctx):
     return snapshot(o1) == snapshot(o2)
 
 
+HASHSEEDS = [0, 1, 2, 3, 4, 5, 6, 7]
+
+
 def obligations(tier, seed):
     obs = []
+    for nm, text, order in (
+            ("two-wavs-one-path", "make_wav\nmake_turbo_wav\n.word {V}\n", [["/w/s.wav", "WAV:bk_wav:"], ["/w/s.wav", "WAV:bk_turbo_wav:"]]),
+            ("raw-then-bin-one-path", "make_raw \"s.bin\"\nmake_bin\n.word {V}\n", [["/w/s.bin", ""], ["/w/s.bin", ""]]),
+            ("five-outputs", "make_bin \"e.bin\"\nmake_raw \"d.raw\"\nmake_wav \"c.wav\"\nmake_turbo_wav \"b.wav\"\nmake_bin \"a.bin\"\n.word {V}\n",
+             [["/w/e.bin", ""], ["/w/d.raw", ""], ["/w/c.wav", "WAV:bk_wav"], ["/w/b.wav", "WAV:bk_turbo"], ["/w/a.bin", ""]])):
+        obs.append(Ob(oid=f"emit-order/{nm}", harness=P + "h_emit", params={"text": text, "order": order}, vars={"V": "int"}, timeout=300, hashseeds=HASHSEEDS,
+                      note="the files written, in order, in fresh processes under 8 string-hash seeds"))
     for name, text in STEPS:
         obs.append(Ob(oid=f"step/{name}", harness=P + "h_step", params={"text": text, "vmax": 8 if name == "recursive-link" else None}, vars={"V": "int"}, timeout=300, per_path=90,
-                      note=text.replace("\n", " / "), pre="every integer V"))
-    for name, text in (("error-probe", PROBE), ("ok-probe", PROBE_OK), ("caret-probe", PROBE_CARET), ("caret-ok-probe", ".word ^|6/2|, ^/ ^|{V}| + 2 /\n")):
+                      note=text.replace("\n", " / "), pre="every integer V", hashseeds=HASHSEEDS))
+    for name, text in (("error-probe", PROBE), ("ok-probe", PROBE_OK), ("caret-probe", PROBE_CARET), ("caret-ok-probe", ".word ^|6/2|, ^/ ^|{V}| + 2 /\n"),
+                       ("include-probe", STEPS[[n for n, _ in STEPS].index("include-bad")][1]), ("include-once-probe", STEPS[[n for n, _ in STEPS].index("include-once-twice")][1])):
         obs.append(Ob(oid=f"instance-id/{name}", harness=P + "h_instance_id", params={"text": text}, vars={"N": "int", "V": "int"}, timeout=300,
                       pre="next_instance_id any n >= 1"))
         obs.append(Ob(oid=f"twice/{name}", harness=P + "h_twice", params={"text": text}, vars={"V": "int"}, timeout=300))
         sub = None if tier == "thorough" else (["valid", "parse-critical", "cycle-size", "caret-nested", "caret-top"] if "caret" in name else
+                                               ["valid", "range-error", "include-bad", "include-once-twice"] if "include" in name else
                                                ["valid", "range-error", "parse-critical", "undefined", "cycle-size"])
         expect = [[3, 0], [2, 1]] if name == "caret-ok-probe" else None
         obs.append(Ob(oid=f"history/{name}", harness=P + "h_history", params={"probe": text, "subset": sub, "expect_words": expect}, vars={"I": "int", "J": "int", "V": "int", "W": "int"},
                       timeout=1500, per_path=120, pre="two earlier assemblies, any ordered pair of the 7-program catalogue"))
+    for nm, text in (("inline", ".word '\u044f, {V}\n.ascii \"\u044f\"\n.even\n"), ("included", ".include \"%s/inc_chr.mac\"\n.word {V}\n" % AUX)):
+        for cs in (("bk", "cp1251"), ("cp1251", "bk"), ("koi8-r", "utf-8")):
+            obs.append(Ob(oid=f"charset-switch/{nm}/{cs[0]}-then-{cs[1]}", harness=P + "h_charset_switch", params={"text": text, "charsets": list(cs)},
+                          vars={"V": "int"}, timeout=300))
     obs.append(Ob(oid="depth-matters", harness=P + "h_depth_matters", params={}, vars={"K": "int"}, timeout=300, pre="try_compute.depth any k >= 0"))
     return obs
